@@ -229,8 +229,12 @@ def package_fails(files, pkg, oth, target_rel, style, expected=None):
             target = os.path.join(d, target_rel)
             st = observe_tree(target, d, style, 'static')
             dy = observe_tree(target, d, style, 'dynamic')
+            forget_package(pkg, oth)
+            au = observe_tree(target, d, style, 'auto')     # the default of every front end (model: Switch.parseCalldefs)
         finally:
             forget_package(pkg, oth)
+    if au != st:
+        return {'mode': 'auto', 'only_static': [x[:2] for x in st if x not in au][:8], 'only_auto': [x[:2] for x in au if x not in st][:8]}
     if st != dy:
         return {'only_static': [x[:2] for x in st if x not in dy][:8], 'only_dynamic': [x[:2] for x in dy if x not in st][:8]}
     if expected is not None and [x[:2] for x in dy] != expected:
